@@ -101,6 +101,10 @@ fn random_program(r: &mut Rng, out: &mut Out) -> String {
         out.stat("gen_io_nest");
         return gen::io_nest(r);
     }
+    if r.chance(1, 12) {
+        out.stat("gen_triangular");
+        return gen::triangular(r);
+    }
     match r.below(10) {
         0..=3 => {
             out.stat("gen_token");
@@ -1814,7 +1818,7 @@ fn optarith_case<C: CellType>(code: &str, out: &mut Out) {
 /// forms) while optimising generated programs, recomputed by the Lean model from the recorded arguments.
 pub fn optarith(r: &mut Rng, count: usize, out: &mut Out) {
     for i in 0..count {
-        let code = if i % 2 == 0 { gen::structured(r) } else { random_program(r, out) };
+        let code = if i % 5 == 4 { gen::triangular(r) } else if i % 2 == 0 { gen::structured(r) } else { random_program(r, out) };
         let w = *r.pick(&WIDTHS);
         match w {
             8 => optarith_case::<u8>(&code, out),
@@ -2072,9 +2076,10 @@ pub fn optrun(r: &mut Rng, count: usize, out: &mut Out) {
     let prev = std::panic::take_hook();
     std::panic::set_hook(Box::new(|_| {}));
     for i in 0..count {
-        let code = match i % 4 {
+        let code = match i % 5 {
             0 => gen::structured(r),
             1 => gen::token(r),
+            2 => gen::triangular(r),
             _ => random_program(r, out),
         };
         let w = *r.pick(&WIDTHS);
